@@ -111,7 +111,7 @@ def observe(root, env, variants=()):
     ev = {"nodes": [], "root": ids.id(root), "rootu": ids.id(std_unwrap(root)), "members": {"-": []}, "salias": [],
           "equiv": [], "raised": ""}
     try:
-        seq = list(with_deadline(2, graph.static_order, root))
+        seq = list(with_deadline(10, graph.static_order, root))
     except Deadline:
         ev["raised"] = "NonTermination"
         return ev
@@ -160,9 +160,9 @@ def observe(root, env, variants=()):
     body = [(n["t"], n["u"], n["var"], n["cyc"]) for n in ev["nodes"][:-1]]
     for name, alt in variants:
         try:
-            s2 = proj(list(with_deadline(2, graph.static_order, alt)))
+            s2 = proj(list(with_deadline(10, graph.static_order, alt)))
             same = [(n["t"], n["u"], n["var"], n["cyc"]) for n in s2[:-1]] == body and bool(s2) and s2[-1]["u"] in (ev["nodes"][-1]["u"], ev["rootu"])
-        except Exception as e:
+        except (Exception, Deadline) as e:
             same = False
             name += ":" + type(e).__name__
         ev["equiv"].append({"how": name, "same": same})
@@ -242,7 +242,7 @@ def run(ctx: Ctx) -> Outcome:
         exec(compile("import dataclasses, decimal, typing\n@dataclasses.dataclass\nclass Parent:\n    n: int\n"
                      f"    child: {expr!r}\n", name, "exec", dont_inherit=True), mod.__dict__)
         try:
-            with_deadline(2, graph.static_order, list[mod.Parent])       # Child is not defined yet
+            with_deadline(10, graph.static_order, list[mod.Parent])       # Child is not defined yet
         except BaseException:
             pass
         exec(compile("@dataclasses.dataclass\nclass Child:\n    v: decimal.Decimal\n    back: 'typing.Optional[Parent]' = None\n",
